@@ -116,6 +116,23 @@ def check_stencil(tier, seed):
             c, s = get_finite_difference_stencil(derivative=d, steps=np.array(perm))
             ok, info = moments_ok(c, s, d)
             obs.append(_ob(f'stencil[d={d},steps={perm}]:moments_and_sorted', ok and [int(x) for x in s] == sorted(st), info))
+    # the container / integer width the user's offsets arrive in must not matter (powers of offsets overflow narrow integer types)
+    wide = [[-2, -1, 0, 1, 2, 3], [0, 1, 2, 3, 4, 5, 6, 7, 8], [-8, -3, -1, 0, 2, 5], list(range(0, 12)), [-6, -5, -3, -1, 0, 1, 2, 4, 7]]
+    for st in wide:
+        for d in (1, 2):
+            ref_c, ref_s = get_finite_difference_stencil(derivative=d, steps=np.array(st, dtype=np.int64))
+            ok_ref, info = moments_ok(ref_c, ref_s, d)
+            obs.append(_ob(f'stencil[d={d},steps={st},int64]:moments', ok_ref, info))
+            for form, val in (('list', list(st)), ('tuple', tuple(st)), ('int8', np.array(st, dtype=np.int8)), ('int16', np.array(st, dtype=np.int16)), ('int32', np.array(st, dtype=np.int32)),
+                              ('uint8', np.array(st, dtype=np.uint8) if min(st) >= 0 else None), ('float64', np.array(st, dtype=float))):
+                if val is None:
+                    continue
+                try:
+                    c, s = get_finite_difference_stencil(derivative=d, steps=val)
+                    ok, info = moments_ok(c, s, d)
+                except Exception as e:
+                    ok, info = False, dict(error=repr(e)[:120])
+                obs.append(_ob(f'stencil[d={d},steps={st},{form}]:moments_whatever_the_container_or_integer_width', ok, info))
     # canary: a deliberately wrong claim must be refuted by the same oracle
     c, s = get_finite_difference_stencil(derivative=1, order=2, stencil_type='center')
     ok, _ = moments_ok(c, s, 2)
@@ -249,6 +266,15 @@ def check_boundary_parameter_forms(tier, seed):
                     obs.append(_ob(f'{tag}:builds', False, dict(error=repr(e)[:160]), backend='numeric'))
                     continue
                 same = np.array_equal(dense(A1), dense(A2)) and np.array_equal(b1, b2)
+                # history: the caller keeps ONE parameter object and uses it again (several grid levels from one definition)
+                try:
+                    A3, b3 = get_finite_difference_matrix(bc_params=given, **kw)
+                    A4, b4 = get_finite_difference_matrix(bc_params=given, **dict(kw, size=size + 5))
+                    A5, b5 = get_finite_difference_matrix(bc_params=copy.deepcopy(spelled), **dict(kw, size=size + 5))
+                    again = np.array_equal(dense(A3), dense(A2)) and np.array_equal(b3, b2) and np.array_equal(dense(A4), dense(A5)) and np.array_equal(b4, b5)
+                except Exception as e:
+                    again = False
+                obs.append(_ob(f'{tag}:same_parameter_object_used_again_gives_the_same_operator', again, backend='numeric'))
                 obs.append(_ob(f'{tag}:same_as_spelled_out_per_side_parameters', same, dict(max_diff_A=float(np.abs(dense(A1) - dense(A2)).max()), max_diff_b=float(np.abs(b1 - b2).max())) if not same else None, backend='numeric'))
                 if isinstance(short, dict):
                     obs.append(_ob(f'{tag}:callers_dictionary_unchanged', given == short, backend='numeric'))
